@@ -252,7 +252,8 @@ Lemma compute_keys_rid : forall now rn i src m k,
 Proof.
   induction rn as [|[rid st] up IH]; intros i src m k H; simpl in *; auto.
   specialize (IH i src m k).
-  destruct st as [f|p|g|h|].
+  destruct st as [f|p|g|fi|h|].
+  4: { destruct (compute now up i src m) as [[s m1] ev]; simpl in *. destruct (IH H) as [|[? ?]]; auto. }
   4: { destruct (compute now up i src m) as [[s m1] ev]; simpl in *. destruct (IH H) as [|[? ?]]; auto. }
   - destruct (compute now up i src m) as [[s m1] ev]; simpl in *. destruct (IH H) as [|[? ?]]; auto.
   - destruct (compute now up i src m) as [[s m1] ev]; simpl in *. destruct (IH H) as [|[? ?]]; auto.
@@ -272,7 +273,8 @@ Proof.
   simpl in Hn. inversion Hn as [|x l Hx Hn']; subst.
   specialize (IH i src m Hn' H).
   pose proof (compute_keys_rid now up i src m (rid, i)) as K.
-  destruct st as [f|p|g|h|].
+  destruct st as [f|p|g|fi|h|].
+  4: { destruct (compute now up i src m) as [[s m1] ev]; simpl in *; auto. }
   4: { destruct (compute now up i src m) as [[s m1] ev]; simpl in *; auto. }
   - destruct (compute now up i src m) as [[s m1] ev]; simpl in *; auto.
   - destruct (compute now up i src m) as [[s m1] ev]; simpl in *; auto.
@@ -336,7 +338,8 @@ Lemma compute_nodup : forall now rn i src m,
 Proof.
   induction rn as [|[rid st] up IH]; intros i src m H; simpl; auto.
   specialize (IH i src m H).
-  destruct st as [f|p|g|h|].
+  destruct st as [f|p|g|fi|h|].
+  4: { destruct (compute now up i src m) as [[s m1] ev]; simpl in *; auto. }
   4: { destruct (compute now up i src m) as [[s m1] ev]; simpl in *; auto. }
   - destruct (compute now up i src m) as [[s m1] ev]; simpl in *; auto.
   - destruct (compute now up i src m) as [[s m1] ev]; simpl in *; auto.
@@ -481,7 +484,7 @@ Proof.
     destruct (nth_error (w_ctxs w) (p_ctx P)) as [cx|]; auto.
     destruct (nth_error (s_mgrs st) (c_mgr cx)) as [m|] eqn:Em; auto.
     destruct j as [|j']; auto.
-    destruct (nth_error (p_nodes P) j') as [[rid [f|p|g|h0|]]|]; simpl; auto.
+    destruct (nth_error (p_nodes P) j') as [[rid [f|p|g|fi0|h0|]]|]; simpl; auto.
     apply set_nth_Forall'; auto. apply delete_parts_inv. eapply Forall_nth; eauto.
   - eapply Forall_impl; [|exact H]. intros m Hm. unfold mgr_inv in *.
     destruct (m_timeout m); auto. eapply timed_inv_later; [|exact Hm]. lia.
